@@ -482,6 +482,27 @@ func (e *FnExec) call(st *State, instr ssa.Instruction, c *ssa.CallCommon, res s
 		}
 		args = append(args, v.T)
 	}
+	// a call through a function-valued parameter declared pure (opt purefunc=<name>): the result
+	// is an uninterpreted function of the function value and the arguments, nothing is modified
+	if key == "" && e.con != nil && res != nil {
+		var pv ssa.Value
+		pname := ""
+		switch v := c.Value.(type) {
+		case *ssa.Parameter:
+			pv, pname = v, v.Name()
+		case *ssa.UnOp:
+			if a, ok := v.X.(*ssa.Alloc); ok {
+				pv, pname = v, a.Comment
+			}
+		}
+		if pv != nil && e.con.Opts["purefunc"] == pname && c.Signature().Results().Len() == 1 {
+			rt := c.Signature().Results().At(0).Type()
+			r := UF("apply!"+sigKey(pv.Type()), sortOf(rt), append([]*Term{e.term(st, pv)}, args...)...)
+			e.addFact(st, e.typeFacts(rt, r, st))
+			e.set(res, r)
+			return
+		}
+	}
 	var con *Contract
 	if key != "" {
 		for _, a := range c.Args {
@@ -1130,4 +1151,22 @@ func (e *FnExec) runDefers(st *State, x *ssa.RunDefers) {
 		con.used++
 		e.applyContract(st, key, con, sig, c, args, nil, d.Pos(), guard)
 	}
+}
+
+
+// sigKey: a name for a function type that ignores parameter names.
+func sigKey(t types.Type) string {
+	sig, ok := types.Unalias(t).Underlying().(*types.Signature)
+	if !ok {
+		return sanitize(typeKey(t))
+	}
+	var parts []string
+	for i := 0; i < sig.Params().Len(); i++ {
+		parts = append(parts, typeKey(sig.Params().At(i).Type()))
+	}
+	parts = append(parts, "->")
+	for i := 0; i < sig.Results().Len(); i++ {
+		parts = append(parts, typeKey(sig.Results().At(i).Type()))
+	}
+	return sanitize(strings.Join(parts, "_"))
 }
